@@ -613,6 +613,28 @@ pub fn record_shape(seed: u64, tier: &str, out: &str) {
             break;
         }
     }
+    // (iv) nodes created on many threads (treaps are Send), merged / inserted on one: every thread's priorities come
+    // from that thread's generator, so generators that repeat each other across threads show up here
+    for &(threads, per) in &[(64usize, 1usize), (600, 1), (2000, 1), (48, 40), (300, 7)] {
+        let parts: Vec<Treap<TItem>> = (0..threads)
+            .map(|_| std::thread::spawn(move || {
+                let mut tr: Treap<TItem> = Treap::new();
+                for i in 0..per {
+                    tr.insert_at(i, TItem::new(1));
+                }
+                tr
+            }))
+            .collect::<Vec<_>>()
+            .into_iter()
+            .map(|h| h.join().unwrap())
+            .collect();
+        let mut all: Treap<TItem> = Treap::new();
+        for p in parts {
+            all = Treap::merge(all, p);
+        }
+        ckpt(&mut t, &all, &format!("{} threads x {} nodes merged on one thread", threads, per));
+        checkpoints += 1;
+    }
     let ev = t.finish();
     println!("{}", json!({"events": ev, "runs": checkpoints, "max_n": sizes[sizes.len() - 1]}));
 }
@@ -669,16 +691,21 @@ fn race_script(seed: u64, draws: usize) -> (Vec<u32>, Vec<i64>) {
     (prios, out)
 }
 
-/// reference stream: `n` node creations on a single thread of a fresh process
-pub fn record_solo(n: usize, out: &str) {
+/// reference streams: node creations on single threads of a fresh process, one thread after the other.  Stream 0
+/// (`n` draws) is what the first thread of a process observes, stream i (`per` draws) what the (i+1)-th thread that
+/// ever creates a node observes when nothing runs concurrently (sequential semantics are not in question).
+pub fn record_solo(n: usize, streams: usize, per: usize, out: &str) {
     let mut t = TraceWriter::create(out);
-    let h = std::thread::spawn(move || (0..n).map(|_| TreapNode::new(TItem::new(1)).priority).collect::<Vec<u32>>());
-    let prios = h.join().unwrap();
-    for ch in prios.chunks(2000) {
-        t.ev(json!({"ev": "solo", "prios": ch.iter().map(|&p| hi_lo(p)).collect::<Vec<_>>()}));
+    for idx in 0..streams.max(1) {
+        let k = if idx == 0 { n } else { per };
+        let h = std::thread::spawn(move || (0..k).map(|_| TreapNode::new(TItem::new(1)).priority).collect::<Vec<u32>>());
+        let prios = h.join().unwrap();
+        for ch in prios.chunks(2000) {
+            t.ev(json!({"ev": "solo", "idx": idx, "prios": ch.iter().map(|&p| hi_lo(p)).collect::<Vec<_>>()}));
+        }
     }
     let ev = t.finish();
-    println!("{}", json!({"events": ev, "draws": n}));
+    println!("{}", json!({"events": ev, "draws": n, "streams": streams}));
 }
 
 pub fn record_race(seed: u64, threads: usize, draws: usize, out: &str) {
